@@ -400,9 +400,9 @@ fn main() {
         let origin = origins[(i as usize / ns.len()) % origins.len()];
         let origin = origin - (origin % n as u32);
         let pct = a.num("pct", 0) == 1 || (a.num("pct", 0) == 2 && i % 2 == 1);
-        let m32 = kind == "atomic" && a.num("model32", 0) == 1;
+        let m32 = a.num("model32", 0) == 1;
         let r = run_one_m(&kind, &sub, n, seed, origin, single.clone(), pct, m32);
-        let model = if m32 { "ring32" } else if kind == "atomic" { "ring" } else { "lockring" };
+        let model = match (m32, kind == "atomic") { (true, true) => "ring32", (true, false) => "lockring32", (false, true) => "ring", _ => "lockring" };
         let cfg = format!("cfg model={model} N={n} seed={seed} run={i} origin={origin} sub={sub}");
         // the finalizer's `obs abs` line is completed here with what it drained
         let mut trace = r.outcome.trace.clone();
